@@ -31,6 +31,9 @@ CHECKS = {
     "C08": dict(cat="exploration", tech="metamorphic monitor over interpreter sessions: same seeded run under PYTHONHASHSEED / worker-count / in-process repeats, sha256 digests of fold assignment, coefficients, scores, result files; CLI save_models / load_models in every permutation",
                 text="Groups of runs that must be bit-identical are executed in fresh interpreters; digests are compared without tolerance; all model permutations are fed back through the CLI.",
                 note="np.random.seed(seed) counted as part of the fixed seed on the API path", ref="5/C08"),
+    "C09": dict(cat="fault_enumeration", tech="fault injection through sys.addaudithook: every mutating file event of an earlier run is a crash point (exception / forked-child os._exit / torn file), observed run on the debris compared byte-for-byte with a clean-directory run; directory-listing monitor; CLI leftover <pin>.tsv",
+                text="All K crash points of each enumerated producer are exercised in the chosen modes, plus completed producers and multi-run histories; verdict from directory snapshots (sha256), the audit log explains them.",
+                note="exhaustive over the crash points of the enumerated producers only; pyarrow writes are seen through wrapped ParquetWriter/to_parquet", ref="5/C09"),
     "C10": dict(cat="exploration", tech="differential monitor on read_pin against the generator's ground truth (all feature counts 1..60, chunk sizes, casing, NaN placement, formats, workers) + rejection monitor",
                 text="Tables are generated from a kept structure; the returned dataset is compared field by field; every feature count 1..60 is swept at the default column chunk size in both formats.",
                 note="charge* feature membership not judged", ref="5/C10"),
